@@ -332,8 +332,8 @@ bool Instance::eval(const size_t argc, char* const* argv) {
                 continue;
             }
         }
-        opcodetype opc = GetOpCode(v);
-        if (opc != OP_INVALIDOPCODE) {
+        opcodetype opc;
+        if (ParseOpCode(v, opc)) {
             script << opc;
             continue;
         }
